@@ -7,6 +7,7 @@ import AdeuModel.DriverDoc
 import AdeuModel.Model.Mapper
 import AdeuModel.Model.Engine
 import AdeuModel.Model.Markup
+import AdeuModel.Model.Tools
 /-
 Line protocol driver: one JSON object per input line, one JSON result per output line.
 Imports model files only (never Lemmas/Props), so it can be compiled to a native executable.
@@ -271,6 +272,37 @@ def handlePreview (j : Json) : Except String Json := do
     ("matches", toJson ((Markup.matchesFrom text edits 0).map fun m => [m.s, m.e, m.idx])),
     ("kept", toJson (kept.map fun m => [m.s, m.e, m.idx]))]
 
+/-! ### tool front-ends (C17) -/
+def handleTool (j : Json) : Except String Json := do
+  let tool : Tools.Tool ← match (← j.getObjValAs? String "tool") with
+    | "readDocx" => pure .readDocx | "diffDocx" => pure .diffDocx | "applyEdits" => pure .applyEdits
+    | "reviewActions" => pure .reviewActions | "acceptAll" => pure .acceptAll | "markupMd" => pure .markupMd
+    | "cliApply" => pure .cliApply | "cliMarkup" => pure .cliMarkup | "cliExtract" => pure .cliExtract
+    | "cliDiff" => pure .cliDiff
+    | t => throw s!"bad tool {t}"
+  let st : Tools.SrcState ← match (← j.getObjValAs? String "src_state") with
+    | "valid" => pure .valid | "missing" => pure .missing | "not_docx" => pure .notDocx | "corrupt" => pure .corrupt
+    | t => throw s!"bad state {t}"
+  let out : Option String := match j.getObjVal? "out" with
+    | .ok (Json.str p) => some p
+    | _ => none
+  let fault : Option Nat := match j.getObjVal? "fault" with
+    | .ok v => (v.getNat?).toOption
+    | _ => none
+  let src : Tools.P := { dir := ← j.getObjValAs? String "dir", stem := ← j.getObjValAs? String "stem", suffix := ← j.getObjValAs? String "suffix" }
+  let tmp := src.dir ++ "/.tmp"
+  let r : Tools.Req := { tool := tool, src := src, srcState := st, out := out, authorOk := ← j.getObjValAs? Bool "author_ok",
+                         nCompute := ← j.getObjValAs? Nat "n_compute", skipped := ← j.getObjValAs? Nat "skipped",
+                         result := "RESULT", fault := fault, tmp := tmp }
+  let existing ← j.getObjValAs? (List String) "existing"
+  let present ← j.getObjValAs? Bool "src_present"
+  let fs0 : Tools.FS := fun p => if p ∈ existing && (p != src.str || present) then some ("OLD:" ++ p) else none
+  let (oc, fs1) := Tools.run r fs0
+  let paths := (existing ++ [Tools.outPath r, tmp]).eraseDups
+  let changed := paths.filter fun p => fs1 p != fs0 p
+  pure <| Json.mkObj [("outcome", toJson (match oc with | .ok => "ok" | .error => "error")),
+    ("changed", toJson changed), ("out", toJson (Tools.outPath r)), ("exit", toJson (Tools.exitCode r fs0))]
+
 def handle (j : Json) : Except String Json := do
   let op ← j.getObjValAs? String "op"
   match op with
@@ -286,6 +318,7 @@ def handle (j : Json) : Except String Json := do
   | "review" => handleReview j
   | "diff_apply" => handleDiffApply j
   | "preview" => handlePreview j
+  | "tool" => handleTool j
   | _ => throw s!"bad-op {op}"
 
 partial def loop (h : IO.FS.Stream) (out : IO.FS.Stream) : IO Unit := do
